@@ -8,10 +8,6 @@ From V.model Require DebVersion Sat.
 From V.proofs Require Import BaseP DebVersionP SatP RelGrammarAccP RelWrapSortP.
 Set Default Timeout 60.
 
-Definition entry_tree (V : variant) (ws : list wrel) : rtree := entry_from (map (wrel_tree V) ws).
-Definition field_tree (V : variant) (es : list (list wrel)) (svs : list rtree) : rtree :=
-  relations_from (map (entry_tree V) es ++ svs).
-
 (* ------------------------------------------------------------------ text *)
 Lemma texts_spaced (ls : list (list rtree)) : texts (spaced ls) = join [32%N] (map texts ls).
 Proof.
